@@ -251,6 +251,15 @@ pub fn compute_checksum(header: &WalFrameHeader, page_data: &[u8]) -> u64 {
 }
 
 pub fn validate_checksum(header: &WalFrameHeader, page_data: &[u8]) -> bool {
+    // CRC-64/ECMA-182 has a zero initial value and no final xor, so the checksum of an
+    // all-zero header and page is 0: a run of never-written zero bytes (a hole, a
+    // zero-filled or preallocated tail) would validate as a frame for file 0, page 0.
+    // Frames are written with time-derived salts, so a header whose salts and checksum
+    // are all zero is not a frame.
+    if header.checksum == 0 && header.salt1 == 0 && header.salt2 == 0 {
+        return false;
+    }
+
     let computed = compute_checksum(header, page_data);
     computed == header.checksum
 }
